@@ -388,11 +388,18 @@ func (r *Runner) replayLockCase(l *Line) lineResult {
 	if st.A == "fromroots" || st.A == "restore" || st.A == "missq" {
 		return lineResult{skipped: "not a writer operation"}
 	}
+	if lockDead.Load() {
+		// goroutines of an earlier case are stuck in the library: nothing more can be run in this process
+		return lineResult{skipped: "skipped after a deadlock"}
+	}
 	scheds := r.loadSchedules()
 	stressEvery := 0
 	fmt.Sscan(optVal(r.extra, "stress", "0"), &stressEvery)
 	w := NewWorld(r.sy, WorldCfg{})
 	fail := func(cat, what string, exp, got any) {
+		if cat == "deadlock" {
+			lockDead.Store(true)
+		}
 		w.fails = append(w.fails, Fail{Props: []string{"C12"}, Inst: "map.part", Cat: cat, What: what, Exp: exp, Got: got, Step: len(l.Hist)})
 	}
 	hookMu.Lock()
@@ -643,6 +650,9 @@ func (r *Runner) replayLockCase(l *Line) lineResult {
 }
 
 var lockSeenRaces int
+
+// set once a case ended in a deadlock
+var lockDead atomic.Bool
 
 func raceLogPrefix() string {
 	for _, kv := range strings.Fields(os.Getenv("GORACE")) {
